@@ -467,9 +467,9 @@ func buildNative(pkg string, l *engine.Loaded) (string, error) {
 	ovPath := filepath.Join(dir, "overlay.json")
 	os.WriteFile(ovPath, ob, 0o644)
 	bin := filepath.Join(dir, "replay.bin")
-	cmd := exec.Command("go", "build", "-overlay", ovPath, "-o", bin, "./"+mustRel(dir))
+	cmd := exec.Command("/opt/veriftools/go1.26.8/bin/go", "build", "-overlay", ovPath, "-o", bin, "./"+mustRel(dir))
 	cmd.Dir = verifDir()
-	cmd.Env = append(os.Environ(), "GOFLAGS=-mod=mod", "GOPROXY=off", "GOSUMDB=off", "GOTOOLCHAIN=local", "CGO_ENABLED=0")
+	cmd.Env = engine.GoEnv()
 	out, err := cmd.CombinedOutput()
 	if err != nil {
 		return "", fmt.Errorf("%v: %s", err, out)
